@@ -86,6 +86,13 @@ var nilError = (*Iface)(nil)
 
 func init() {
 	ufFixedLen["sha512"] = 64
+	ufFixedLen["ideal_hash"] = 20
+	const b64std = "ABCDEFGHIJKLMNOPQRSTUVWXYZabcdefghijklmnopqrstuvwxyz0123456789+/="
+	const b64url = "ABCDEFGHIJKLMNOPQRSTUVWXYZabcdefghijklmnopqrstuvwxyz0123456789-_="
+	ufAlphabet["b64e_std"] = b64std
+	ufAlphabet["b64e_url"] = b64url
+	ufAlphabet["ideal_hash"] = "0123456789abcdef"
+	RegisterUF("ideal_hash", SStr, SStr)
 	RegisterUF("sha512", SStr, SStr)
 	RegisterUF("b64e_std", SStr, SStr)
 	RegisterUF("b64e_url", SStr, SStr)
@@ -104,7 +111,7 @@ func init() {
 	RegisterUF("fmtx", SStr, SStr)
 
 	// injective UFs: f(a) = f(b) => a = b, instantiated pairwise on occurring applications
-	injective := map[string]bool{"sha512": true, "rfc3339": true, "fmtq": true, "fmtx": true, "pescape": true}
+	injective := map[string]bool{"sha512": true, "rfc3339": true, "fmtq": true, "fmtx": true, "pescape": true, "ideal_hash": true}
 	RegisterAxiom(func(n *Term, existing []*Term) []*Term {
 		var out []*Term
 		if injective[n.S] {
@@ -493,6 +500,8 @@ func registerIntrinsics(p *Program) {
 	registerTimeIntrinsics(p)
 	registerExtras(p)
 	registerReflect(p)
+	registerLowLevel(p)
+	registerThirdParty(p)
 	registerGoStubs(p)
 }
 
@@ -508,6 +517,7 @@ func fmtInt(v *Term) *Term {
 
 // split implements strings.Split/SplitN for a non-empty separator, forking on the number of pieces.
 func (ex *Exec) split(s, sep *Term, n int) []*Term {
+	s = ex.resolveIte(s)
 	if s.IsConst() && sep.IsConst() {
 		var parts []string
 		if n < 0 {
